@@ -954,15 +954,17 @@ def gate_xop(kind, qs):
     return getattr(gates, kind)(*qs), f"XG ([{qs[0]}]%nat, [{qs[1]}]%nat, {GATE_ZI[base]})", f"{kind}({qs[0]},{qs[1]})"
 
 
-def bookkeeping_script(crng):
+def bookkeeping_script(crng, quiet=False):
     """[('G', kind, qubits) | ('M', qubits, name_code_or_None)]: basis-state preparation, 2-4
     registers, 1-3 later gates overlapping random subsets of them (often two registers at once),
     optional re-measurement; at least one final-state measurement remains"""
-    n = crng.randint(2, 4)
+    # quiet: the later gates avoid every measured qubit, so NO measurement is converted and the
+    # circuit takes the ordinary (single execution) path
+    n = crng.randint(3 if quiet else 2, 4)
     script = [("G", "X", [q]) for q in range(n) if crng.random() < 0.5]
-    nreg = crng.randint(2, min(4, n))
+    nreg = crng.randint(2, min(4, n) - (1 if quiet else 0))
     perm = crng.sample(range(n), n)
-    m = crng.randint(nreg, n)
+    m = crng.randint(nreg, n - (1 if quiet else 0))
     cuts = sorted(crng.sample(range(1, m), nreg - 1))
     groups, prev = [], 0
     for c in cuts + [m]:
@@ -979,7 +981,11 @@ def bookkeeping_script(crng):
     def later_gate():
         nonlocal active
         two = [a for a in active]
-        if n >= 2 and len(two) >= 2 and crng.random() < 0.65:
+        unmeasured = [q for q in range(n) if not any(q in a for a in active)]
+        if quiet and unmeasured:
+            qs = [crng.choice(unmeasured)]
+            kind = crng.choice(["X", "Z", "Y"])
+        elif n >= 2 and len(two) >= 2 and crng.random() < 0.65:
             a, b = crng.sample(two, 2)
             qs = [crng.choice(a), crng.choice(b)]
             kind = crng.choice(["CNOT", "CZ", "SWAP"])
@@ -1021,7 +1027,7 @@ def name_code(name, given):
 def bookkeeping_case(run, be, i):
     from qibo import Circuit, gates
     crng = random.Random(f"{run.seed}:bookkeeping:{i}")
-    n, script = bookkeeping_script(crng)
+    n, script = bookkeeping_script(crng, quiet=(i % 6 == 5))
     nshots = crng.randint(1, 3)
     info = {"part": "bookkeeping", "case": i, "n": n, "nshots": nshots,
             "script": [(f"{s[1]}({','.join(map(str, s[2]))})" if s[0] == "G" else
